@@ -37,3 +37,35 @@ Definition check (i : cin) (o : obs) : bool :=
       && forallb (fun p => Bool.eqb (is_space (fst p)) (snd p)) sample
   end.
 Definition mm := mismatches model oeqb check.
+
+(* ---------------------------------------------------------------- search mode only
+   Used by the driver after an obligation has stopped checking (e.g. C09_gen_unescape on a regenerated
+   unescape table), to look for a concrete failing template: on a brace-free template the property
+   dictates the output outright -- "\x" is x, except that \n \t \r are LF TAB CR -- with the escape
+   table frozen here, NOT regenerated from the source.  Templates with a brace or ending in a lone
+   backslash are skipped.  Never part of the decision on a tree whose obligations all check. *)
+Definition spec_unescape (c : N) : N :=
+  if c =? 110 then 10 else if c =? 116 then 9 else if c =? 114 then 13 else c.
+Fixpoint frozen_unesc (s : str) : option str :=
+  match s with
+  | [] => Some []
+  | c :: r =>
+      if c =? 92 then
+        match r with
+        | [] => None
+        | d :: r' => option_map (cons (spec_unescape d)) (frozen_unesc r')
+        end
+      else if (c =? 123) || (c =? 125) then None
+      else option_map (cons c) (frozen_unesc r)
+  end.
+Definition check_search (i : cin) (o : obs) : bool :=
+  check i o &&
+  match i, o with
+  | ITmpl _ s, Some (out, out', _) =>
+      match frozen_unesc s with
+      | Some e => str_eqb out e && str_eqb out' e
+      | None => true
+      end
+  | _, _ => true
+  end.
+Definition mm_search := mismatches model oeqb check_search.
